@@ -15,8 +15,9 @@ def run(chk, tier):
     chk.configs.add("default")
     from props import c11
     chk.guarded(c11.r_item_arms, P, tier)
-    from props import c09
+    from props import c09, c12
     chk.guarded(c09.r_write_hundreds, P, tier)
+    chk.guarded(c12.r_offset_writer_map, P, tier)
     for r in (r_reader_shape, r_offset_bound, r_entry, r_writer, r_year_box, r_fraction_templates, r_ascii, r_absint, r_flow, r_own_ranges, r_fraction_scale, r_fraction_base):
         chk.guarded(r, P, tier)
     chk.assume("that the accepted language equals the RFC 3339 grammar for every string, the values returned and the round trip are NOT decided; the grammar side is specs (appendix A.5)")
